@@ -7,6 +7,7 @@
 -/
 import Khttp.Props.C08
 import Khttp.Props.C06
+import Khttp.Props.C02
 import Khttp.Lemmas.Compose
 namespace Khttp.RoundTrip
 open Khttp
@@ -327,5 +328,175 @@ theorem response_roundtrip (code : Nat) (reason : Bytes) (user : List (Bytes × 
       (by simp) (by simp) [] lo' stream segs s1 s2
       (by rw [hsplit]; simp [encodeBody, encodeChunkedPlain_eq])
     simpa [Framing.body] using this
+
+/-! ## The other direction: what the client prints for a request, the server's request parser reads back -/
+
+theorem filter_cl_nil : ∀ (fs : List (Bytes × Bytes)), noFramingName fs = true →
+    (fs.map asLine).filter (fun f => eqIgnoreCase f.1 (str "content-length")) = [] ∧
+    (fs.map asLine).filter (fun f => eqIgnoreCase f.1 (str "transfer-encoding")) = [] := by
+  intro fs
+  induction fs with
+  | nil => intro _; exact ⟨rfl, rfl⟩
+  | cons f fs ih =>
+    intro hn
+    have hrest : noFramingName fs = true := by
+      simp only [noFramingName, List.all_cons, Bool.and_eq_true] at hn ⊢; exact hn.2
+    have hf : isFramingField f = false := by
+      simp only [noFramingName, List.all_cons, Bool.and_eq_true, Bool.not_eq_true'] at hn; exact hn.1
+    simp only [isFramingField, Bool.or_eq_false_iff, isCL, isTE] at hf
+    obtain ⟨i1, i2⟩ := ih hrest
+    have e1 : eqIgnoreCase f.1 (str "content-length") = false := hf.1
+    have e2 : eqIgnoreCase f.1 (str "transfer-encoding") = false := hf.2
+    simp only [List.map_cons, asLine, List.filter_cons, e1, e2, Bool.false_eq_true, ↓reduceIte]
+    exact ⟨i1, i2⟩
+
+theorem digit_not_ows : ∀ b : UInt8, isDigit b = true → Spec.isOws b = false := by
+  apply Hdr.forall_uint8; decide +kernel
+
+theorem trimOws_sp_digits (ds : Bytes) (h : ds.all isDigit = true) : Spec.trimOws (SP :: ds) = ds := by
+  have hall : ∀ b ∈ ds, Spec.isOws b = false := fun b hb => digit_not_ows b (List.all_eq_true.1 h b hb)
+  have e1 : ∀ l : Bytes, (∀ b ∈ l, Spec.isOws b = false) → l.dropWhile Spec.isOws = l := by
+    intro l hl
+    cases l with
+    | nil => rfl
+    | cons a t => simp [List.dropWhile, hl a (by simp)]
+  have hsp : Spec.isOws SP = true := by decide
+  unfold Spec.trimOws
+  simp only [List.dropWhile, hsp, e1 ds hall]
+  rw [e1 ds.reverse (fun b hb => hall b (List.mem_reverse.1 hb)), List.reverse_reverse]
+
+/-- the header section the printer generates is valid request framing in the sense of RFC 9112 §6.3 (`Spec.framingOk`) -/
+theorem framingOk_printed (user : List (Bytes × Bytes)) (date : Option Bytes) (fr : Framing)
+    (hn : noFramingName user = true) (hsz : ∀ b, fr = .length b → b.length < 2 ^ 64) :
+    Spec.framingOk ((allFields user date fr).map asLine) = true := by
+  have hfn : noFramingName (user ++ dateField date) = true := by
+    have hd : ∀ v, isFramingField (str "date", v) = false := by
+      intro v; simp only [isFramingField, isCL, isTE]; decide +kernel
+    cases date with
+    | none => simpa [dateField] using hn
+    | some v =>
+      simp only [noFramingName, dateField, List.all_append, List.all_cons, List.all_nil, Bool.and_true,
+        Bool.and_eq_true, Bool.not_eq_true'] at hn ⊢
+      exact ⟨hn, hd v⟩
+  obtain ⟨f1, f2⟩ := filter_cl_nil (user ++ dateField date) hfn
+  unfold Spec.framingOk Spec.clValues Spec.finalCodingChunked Spec.teLines allFields
+  rw [List.map_append, List.filter_append, List.filter_append, f1, f2]
+  cases fr with
+  | length b =>
+    have hb := hsz b rfl
+    obtain ⟨hv, hd⟩ := Printer.decNumeral_spec b.length
+    have c1 : eqIgnoreCase Khttp.Spec.Message.CONTENT_LENGTH (str "content-length") = true := by decide +kernel
+    have c2 : eqIgnoreCase Khttp.Spec.Message.CONTENT_LENGTH (str "transfer-encoding") = false := by decide +kernel
+    simp only [List.map_cons, List.map_nil, framingField, clField, asLine, List.filter_cons, List.filter_nil, c1, c2,
+      ↓reduceIte, List.nil_append, Bool.false_eq_true, List.getLast?_nil, Bool.and_true, trimOws_sp_digits _ hd,
+      List.all_cons, List.all_nil, hd]
+    have hne : (decNumeral b.length != []) = true := by
+      simpa using Printer.decNumeral_ne_nil b.length
+    have hdec : Spec.decimal (decNumeral b.length) = b.length := by simpa [Spec.decimal, decVal] using hv
+    simp [hne, hdec, hb]
+  | chunked cs =>
+    have c1 : eqIgnoreCase Khttp.Spec.Message.TRANSFER_ENCODING (str "content-length") = false := by decide +kernel
+    have c2 : eqIgnoreCase Khttp.Spec.Message.TRANSFER_ENCODING (str "transfer-encoding") = true := by decide +kernel
+    simp only [List.map_cons, List.map_nil, framingField, teField, asLine, List.filter_cons, List.filter_nil, c1, c2,
+      ↓reduceIte, List.nil_append, Bool.false_eq_true, List.all_nil, Bool.true_and]
+    decide +kernel
+
+open Khttp.Body in
+/-- **Round trip, request.**  What `HttpPrinter::write_request` renders — an alphabetic method, a target of one of the four
+    forms, user fields with token names and field-value bytes none of which names a framing header, optional date, either
+    framing — the server's `Request::parse` accepts, reporting that method, that target with its path / query split,
+    HTTP/1.1, the header collection of the printed fields and a head length equal to the rendered head; and the body reader
+    `from_request` selects from that collection delivers exactly the body under any split, segmentation and read schedule,
+    through `Read` and `BufRead`. -/
+theorem request_roundtrip (m : Bytes) (t : Spec.Target) (user : List (Bytes × Bytes)) (date : Option Bytes) (fr : Framing)
+    (hm : m ≠ [] ∧ m.all isAlpha = true) (ht : t.Wf = true)
+    (hu : ∀ f ∈ allFields user date fr, Spec.WfRfcLine (asLine f) = true) (hn : noFramingName user = true)
+    (hw : framingWf fr = true)
+    (hsz : match fr with | .length b => b.length < 2 ^ 64 | .chunked cs => ∀ c ∈ cs, c.length < 2 ^ 64) :
+    ∃ r, Request.parse (renderRequest m t.bytes user date fr) = .ok r ∧
+      r.method = Spec.methodOf m ∧ r.uri.full = t.bytes ∧ r.uri.path = .ok t.path ∧ r.uri.query = .ok t.query ∧
+      r.version = 1 ∧ r.headers = Spec.collect ((allFields user date fr).map asLine) ∧
+      r.off = (renderHead (requestStart m t.bytes) (allFields user date fr)).length ∧
+      ∀ (lo' stream : Bytes) (segs s1 s2 : List Nat),
+        lo' ++ stream = (renderRequest m t.bytes user date fr).drop r.off →
+        let rd := BodyReader.fromRequest lo' { data := stream, segs := segs } r.headers.chunked r.headers.cl
+        Yields (runRead' rd s1) fr.body .eof false ∧ Yields (runBuf' rd s2) fr.body .eof false := by
+  let h : Spec.RfcHead := ⟨m, t, 0x31, (allFields user date fr).map asLine⟩
+  have hfr : Spec.framingOk ((allFields user date fr).map asLine) = true :=
+    framingOk_printed user date fr hn (by intro b hb; subst hb; exact hsz)
+  have hwf : h.Wf = true := by
+    simp only [Spec.RfcHead.Wf, Bool.and_eq_true, bne_iff_ne, ne_eq, h]
+    refine ⟨⟨⟨⟨⟨hm.1, hm.2⟩, ht⟩, by decide⟩, ?_⟩, hfr⟩
+    rw [List.all_eq_true]
+    intro l hl
+    obtain ⟨f, hfm, rfl⟩ := List.mem_map.1 hl
+    exact hu f hfm
+  have hrender : Spec.render h.toHead = renderHead (requestStart m t.bytes) (allFields user date fr) := by
+    have e1 : str "HTTP/1.1" = str "HTTP/1." ++ [(0x31 : UInt8)] := by decide +kernel
+    simp only [Spec.render, Spec.requestLine, Spec.RfcHead.toHead, renderHead, requestStart, flatMap_fieldLine, e1,
+      Spec.CRLF, Khttp.Spec.Message.CRLF, List.append_assoc, h]
+  obtain ⟨r, hp, hoff, hmeth, hfull, hpath, hquery, hver, hhdr⟩ := C02_accepts_exactly h hwf (encodeBody fr)
+  have hwire : renderRequest m t.bytes user date fr = Spec.render h.toHead ++ encodeBody fr := by
+    rw [hrender]; simp [renderRequest, renderMessage]
+  have hv1 : r.version = 1 := by
+    have : r.version.toNat + 48 = 49 := hver
+    have : r.version.toNat = 1 := by omega
+    exact UInt8.toNat_inj.1 (by simpa using this)
+  refine ⟨r, by rw [hwire]; exact hp, hmeth, hfull, hpath, hquery, hv1, hhdr, by rw [hoff, hrender], ?_⟩
+  intro lo' stream segs s1 s2 hsplit
+  have hdrop : (renderRequest m t.bytes user date fr).drop r.off = encodeBody fr := by
+    rw [hwire, hoff]; simp
+  rw [hdrop] at hsplit
+  rw [hhdr]
+  cases fr with
+  | length b =>
+    obtain ⟨hcl, hch⟩ := collect_length user date b hn hsz
+    simp only [h, hcl, hch]
+    exact C06_fixed_exact b [] lo' stream segs s1 s2 (by simpa [encodeBody, Khttp.Spec.Chunked.encodeFixed] using hsplit)
+  | chunked cs =>
+    have hch := collect_chunked user date cs hn
+    simp only [h, hch]
+    have e : BodyReader.fromRequest lo' { data := stream, segs := segs } true
+        (Spec.collect ((allFields user date (.chunked cs)).map asLine)).cl
+        = BodyReader.newChunked lo' { data := stream, segs := segs } := by
+      simp [BodyReader.fromRequest]
+    rw [e]
+    have hne : ∀ d ∈ cs, d ≠ [] := by
+      intro d hdm
+      have := List.all_eq_true.1 hw d hdm
+      simpa using this
+    have := C06_chunked_exact hexNumeral numeral_hexNumeral cs [] [] hne (by simpa [usizeLimit] using hsz)
+      (by simp) (by simp) [] lo' stream segs s1 s2
+      (by rw [hsplit]; simp [encodeBody, encodeChunkedPlain_eq])
+    simpa [Framing.body] using this
+
+/-! ## Non-vacuity: concrete messages satisfying the hypotheses -/
+
+/-- a chunked response with a user field and a date -/
+example : reasonOk (str "NOT FOUND") = true ∧ wfFields [(str "x-a", str "1 2")] = true ∧
+    noFramingName [(str "x-a", str "1 2")] = true ∧ framingWf (.chunked [str "abc", str "de"]) = true ∧
+    noCRLF (str "Thu, 01 Jan 1970 00:00:00 GMT") = true := by decide +kernel
+
+/-- … and what the theorem says about it, evaluated: the parser reads back code, reason and the header collection -/
+example : (match Response.parse (renderResponse 404 (str "NOT FOUND") [(str "x-a", str "1 2")]
+      (some (str "Thu, 01 Jan 1970 00:00:00 GMT")) (.chunked [str "abc", str "de"])) with
+    | .ok r => (r.code, r.reason == str "NOT FOUND", r.headers.chunked, r.headers.cl, r.headers.fields.length)
+    | _ => (0, false, false, none, 0)) = (404, true, true, none, 3) := by decide +kernel
+
+/-- an absolute-form POST with a fixed-length body -/
+example : (Spec.Target.absolute (str "http") (str "h:80") (str "/a/b") (some (str "x=1"))).Wf = true ∧
+    (∀ f ∈ allFields [(str "Host", str "h")] none (.length (str "hello")), Spec.WfRfcLine (asLine f) = true) ∧
+    noFramingName [(str "Host", str "h")] = true := by decide +kernel
+
+/-- the theorem instantiated on that request (the SWAR scanners of the request parser do not reduce under `decide`, so the
+    instance is obtained from the theorem rather than by evaluation) -/
+example : ∃ r, Request.parse (renderRequest (str "POST") (Spec.Target.absolute (str "http") (str "h:80") (str "/a/b")
+      (some (str "x=1"))).bytes [(str "Host", str "h")] none (.length (str "hello"))) = .ok r ∧
+    r.method = .post ∧ r.version = 1 := by
+  obtain ⟨r, hp, hm, _, _, _, hv, _⟩ := request_roundtrip (str "POST")
+    (Spec.Target.absolute (str "http") (str "h:80") (str "/a/b") (some (str "x=1"))) [(str "Host", str "h")] none
+    (.length (str "hello")) (by decide +kernel) (by decide +kernel) (by decide +kernel) (by decide +kernel)
+    (by decide +kernel) (by decide +kernel)
+  exact ⟨r, hp, by rw [hm]; decide +kernel, hv⟩
 
 end Khttp.RoundTrip
